@@ -148,7 +148,7 @@ ADDED = {
  "C12": " Plus two-operator sequences on the same constants: a value that differs from the run-time form and from its isolated fold is history dependence (new key family fold-depends-on-history). Failing tuples of the 78 known folding classes are compared with 19144 witnesses pinned from the unchanged tree (known_witnesses/C12.txt); another failing tuple of a known class is reported as a new witness.",
  "C15": " Plus a strictly causal adaptive tamperer over two batches on one instance: from what already crossed the wire it predicts the next challenge, finds a zero-sum row set by elimination over GF(2) and flips one Delta-selected column in those rows. Batch sizes whose last check chunk is 3 mod 4 long (3, 7, 131, 1027, 2047, 2051).",
  "C16": " Also single-bit flips (all bits of the short transcripts in thorough), paired and constant-mask corruptions 16 bytes apart, and every bit of the first eight bytes of the first two and last four transport writes of each direction (message framing). Eight configurations (whole-circuit incl. one with 90 result bits, streaming incl. repeated result wires); framing-bit faults at flush-unit starts; faults on the last 64 16-byte units.",
- "C17": " Odd goroutines refill one key buffer in place; some garblings run on a label source that dies part-way; some garblings are kept by their slices only (handle dropped, never released) while garbage collections are forced.",
+ "C17": " Odd goroutines refill one key buffer in place; some garblings run on a label source that dies part-way; some garblings are kept by their slices only (handle dropped, never released) while garbage collections are forced. Every second case runs with goroutine-local logs instead of a monitor mutex (no synchronisation between goroutines that could hide a race); every sixth case is a release storm in a non-race child process on all cores (large circuit, release bursts against goroutines that never release).",
  "C18": " A round-3 message damaged in one bit of any field, or answering another round-2 message of the same session id, must yield an error or the correct digest; absurd well-formed uvarint lengths (2^31..2^64-1) are spliced into the framed encodings; interleaved sessions in one process.",
  "C20": " Word-sized moduli, concurrent Fx/Fxk sessions and concurrent twin VOLE sessions in one process. Fx/Fxk sessions over a receiver transport that breaks at a PRNG receive call.",
  "C07": " Failing tuples of the known Goldschmidt finding are compared with 60 witnesses pinned from the unchanged tree; another failing tuple of the same signature is reported as a new witness.",
